@@ -436,6 +436,18 @@ let de_handler (args : string list) : string =
       show_run (show_s sh) (de_auto cfg_full sh (start (bytes_of_hex hex)))
   | _ -> "?bad-DE"
 
+(* the same two operations at a given configuration, without the S= column (C20) *)
+let ser_at (c : cfg) (t : string) (v : string) : string =
+  let sh = shape_of_key t in
+  let value = parse_s sh { s = v; i = 0 } in
+  (match ser_s c value with
+   | None -> "refused;-"
+   | Some cs -> let bs = flat cs in Printf.sprintf "%s;%s" (hex_of_bytes bs) (show_run (show_s sh) (de_auto c sh (start bs))))
+
+let de_at (c : cfg) (t : string) (hex : string) : string =
+  let sh = shape_of_key t in
+  show_run (show_s sh) (de_auto c sh (start (bytes_of_hex hex)))
+
 let () =
   register "SER" ser_handler;
   register "DE" de_handler
